@@ -79,6 +79,8 @@ from glue.core.component import (Component, CategoricalComponent,
                                  ExtendedComponent)
 from glue.core.subset import (OPSYM, SYMOP, CompositeSubsetState,
                               SubsetState, Subset, RoiSubsetState,
+                              RoiSubsetStateNd, MultiOrState,
+                              MultiRangeSubsetState,
                               InequalitySubsetState, RangeSubsetState)
 from glue.core import (VisualAttributes, ComponentLink, DataCollection)
 from glue.core.component_link import CoordinateComponentLink
@@ -687,6 +689,43 @@ def _load_range_subset_state(rec, context):
     return RangeSubsetState(context.object(rec['lo']),
                             context.object(rec['hi']),
                             context.object(rec['att']))
+
+
+@saver(MultiRangeSubsetState)
+def _save_multi_range_subset_state(state, context):
+    return dict(pairs=[[context.id(lo), context.id(hi)] for lo, hi in state.pairs],
+                att=context.id(state.att))
+
+
+@loader(MultiRangeSubsetState)
+def _load_multi_range_subset_state(rec, context):
+    return MultiRangeSubsetState([(context.object(lo), context.object(hi))
+                                  for lo, hi in rec['pairs']],
+                                 context.object(rec['att']))
+
+
+@saver(MultiOrState)
+def _save_multi_or_state(state, context):
+    return dict(states=[context.id(s) for s in state.states])
+
+
+@loader(MultiOrState)
+def _load_multi_or_state(rec, context):
+    return MultiOrState([context.object(s) for s in rec['states']])
+
+
+@saver(RoiSubsetStateNd)
+def _save_roi_subset_state_nd(state, context):
+    return dict(atts=[context.id(att) for att in state.attributes],
+                roi=context.id(state.roi),
+                pretransform=context.id(state.pretransform))
+
+
+@loader(RoiSubsetStateNd)
+def _load_roi_subset_state_nd(rec, context):
+    return RoiSubsetStateNd(atts=[context.object(att) for att in rec['atts']],
+                            roi=context.object(rec['roi']),
+                            pretransform=context.object(rec['pretransform']))
 
 
 @saver(RoiSubsetState)
